@@ -107,7 +107,8 @@ static bool apply_vecgrow(Bytes &ub, bool dtls, int64_t aa, int64_t ab) {
 }
 
 // Duplicate one extension of a hello message (record body = one whole handshake message).  which: index of the extension to copy; var: 0 = copy as is,
-// 1..3 = the copy's body cut to var bytes, 4 = first body byte of the copy altered, 5 = body cut to 0 bytes.  All enclosing lengths are adjusted.
+// 1..3 = the copy's body cut to var bytes, 4 = first body byte of the copy altered, 5 = body cut to 0 bytes; (var / 6) % 8 = how many FURTHER copies are
+// inserted (a list-valued extension repeated often enough overruns any per-message accumulator sized for one list).  All enclosing lengths are adjusted.
 static bool apply_dupext(Bytes &ub, bool dtls, int64_t which, int64_t var) {
     size_t hdr = dtls ? 13 : 5, hh = dtls ? 12 : 4;
     if (ub.size() < hdr + hh + 40) { return false; }
@@ -135,6 +136,7 @@ static bool apply_dupext(Bytes &ub, bool dtls, int64_t which, int64_t var) {
     else if (v == 5) { copy.resize(4); }
     else if (v == 4 && copy.size() > 4) { copy[4] ^= 0x5a; }
     copy[2] = (unsigned char) ((copy.size() - 4) >> 8); copy[3] = (unsigned char) (copy.size() - 4);
+    { int more = (int) (((uint64_t) var / 6) % 8); Bytes one = copy; for (int i = 0; i < more && copy.size() + one.size() + ub.size() < 15000; i++) { copy.insert(copy.end(), one.begin(), one.end()); } }
     // a TLS 1.3 ClientHello must keep pre_shared_key last: put the copy right behind the original instead of at the end
     ub.insert(ub.begin() + (long) (e.first + e.second), copy.begin(), copy.end());
     size_t n = copy.size();
